@@ -27,6 +27,7 @@ class RecordingAlpha(object):
     def __init__(self, inner, probe=None):
         self.inner = inner
         self.calls = []
+        self.outputs = []
         self.probes = []
         self.probe = probe
 
@@ -34,7 +35,9 @@ class RecordingAlpha(object):
         self.calls.append(dt)
         if self.probe is not None:
             self.probes.append((dt, self.probe(dt)))
-        return self.inner(dt)
+        w = self.inner(dt)
+        self.outputs.append(dict(w))         # what the model said, before anybody downstream can touch the dict
+        return w
 
 
 class SMATrendAlpha(object):
@@ -81,6 +84,28 @@ class CycleAlpha(object):
         return w
 
 
+class HistCloseAlpha(object):
+    """Harness alpha reading the data source's public range query: weight 1 where the last close of the trailing
+    `lookback` calendar days (up to the rebalance instant) is above the first one, 0.5 with a single close."""
+
+    def __init__(self, ds, universe, lookback):
+        self.ds, self.universe, self.lookback = ds, universe, lookback
+
+    def __call__(self, dt):
+        assets = self.universe.get_assets(dt)
+        w = {a: 0.0 for a in assets}
+        if not assets:
+            return w
+        df = self.ds.get_assets_historical_closes(dt - pd.Timedelta(days=self.lookback), dt, list(assets))
+        for a in df.columns:
+            col = df[a].dropna()
+            if len(col) == 1:
+                w[a] = 0.5
+            elif len(col) >= 2 and col.iloc[-1] > col.iloc[0]:
+                w[a] = 1.0
+        return w
+
+
 def build_universe(q, ucfg):
     if ucfg['kind'] == 'static':
         return q.StaticUniverse(list(ucfg['assets']))
@@ -93,7 +118,7 @@ class Run(object):
 
 
 def run_session(cfg, csv_path, symbols, data_source=None, probe_signals=False, hooks=None, data_handler=None,
-                shared=None):
+                shared=None, own_handler=False):
     """
     cfg keys: start, end, rebalance, weekday, long_only, buffer, leverage, fee, cash, burn_in, universe, alpha, adjust.
     Returns a Run with fills, history, equity_curve, allocations, calls, exception info.
@@ -126,6 +151,8 @@ def run_session(cfg, csv_path, symbols, data_source=None, probe_signals=False, h
         alpha = q.FixedSignalsAlphaModel(dict(acfg['weights']))
     elif acfg['kind'] == 'cycle':
         alpha = CycleAlpha(acfg['vectors'])
+    elif acfg['kind'] == 'hist':
+        alpha = HistCloseAlpha(ds, universe, acfg['lookback'])
     elif acfg['kind'] == 'single':
         alpha = q.SingleSignalAlphaModel(universe, signal=acfg['signal'])
     elif acfg['kind'] == 'topn':
@@ -174,7 +201,8 @@ def run_session(cfg, csv_path, symbols, data_source=None, probe_signals=False, h
         bt = q.BacktestTradingSession(
             start, end, universe, alpha, signals=signals, initial_cash=cfg['cash'], rebalance=cfg['rebalance'],
             long_only=cfg['long_only'], fee_model=kit.fee_model(cfg['fee']),
-            burn_in_dt=None if cfg.get('burn_in') is None else cal.ts6(cfg['burn_in']), data_handler=dh, **kw)
+            burn_in_dt=None if cfg.get('burn_in') is None else cal.ts6(cfg['burn_in']),
+            data_handler=None if own_handler else dh, **kw)     # own_handler: the session builds its handler itself
     except Exception as e:                                       # noqa
         # a configuration the session refuses to build: reported like a failure at the start instant
         r.error = (type(e).__name__, str(e)[:200], start)
